@@ -1,5 +1,4 @@
 #include "common.hpp"
 namespace vh {
-std::string run_grid_case(const vj::value&) { throw std::runtime_error("grid: not built"); }
 std::string run_adi_case(const vj::value&) { throw std::runtime_error("adi: not built"); }
 }
